@@ -1,17 +1,18 @@
 #!/bin/bash
-# usage: seedtest.sh <seed-root> [filter]   — applies each patch to a scratch copy of /repo and lists the violations found
+# usage: seedtest.sh [seed-root] [filter]   — applies each patch to a scratch copy of /repo and lists the violations found
 root=${1:-/verif/seeded}; filt=${2:-}
-for d in $(ls -d $root/C* 2>/dev/null | sort); do
-  case "$d" in *"$filt"*) ;; *) continue;; esac
-  [ -f $d/patch.diff ] || continue
+one() {
+  d=$1
+  [ -f $d/patch.diff ] || exit 0
   t=$(mktemp -d /tmp/sv.XXXXXX)
   cp /repo/*.go /repo/go.mod $t/ ; cp -r /repo/testdata $t/ 2>/dev/null
-  if ! (cd $t && patch -p1 -s < $d/patch.diff >/dev/null 2>&1); then echo "$d: PATCH DOES NOT APPLY"; rm -rf $t; continue; fi
+  if ! (cd $t && patch -p1 -s < $d/patch.diff >/dev/null 2>&1); then echo "== $d: PATCH DOES NOT APPLY"; rm -rf $t; exit 0; fi
   prop=$(basename $d | cut -d- -f1)
   out=$(/verif/bin/dverif list -bad -repo $t 2>&1 | grep -v "cell:Expm1(-zero)\|series.expm1.cancel" | grep -v "obligations$")
   n=$(echo -n "$out" | grep -c .)
   hit=$(echo "$out" | grep -c "$prop")
-  echo "== $d: $n violations, $hit tagged $prop"
-  echo "$out" | cut -c1-220 | head -${SHOW:-3}
+  { echo "== $d: $n violations, $hit tagged $prop"; echo "$out" | cut -c1-220 | head -${SHOW:-3}; }
   rm -rf $t
-done
+}
+export -f one
+ls -d $root/C* 2>/dev/null | sort | grep -F -- "$filt" | xargs -P ${J:-8} -I{} bash -c 'one {}' | awk '/^== /{key=$2} {print key "\t" $0}' | sort -s -k1,1 | cut -f2-
